@@ -230,6 +230,19 @@ def argclass(e, elig):
     return "pair-with-infinity" if INFM in a else "pair"
 
 
+def as_700(mask_texts, elig_real, observed):
+    """Is *observed* what psutil 7.0.0's way of finding "all eligible CPUs" yields for one of the
+    masks the process had (the signed finding): the first 'a-b' of a Cpus_allowed_list that STARTS
+    with a range, narrowed by the kernel to the cpuset?  A list that does not start with a range
+    makes 7.0.0 ask for every CPU, which is right."""
+    import re as _re
+    for t in mask_texts:
+        m = _re.match(r"(\d+)-(\d+)", t)
+        if m and (set(range(int(m.group(1)), int(m.group(2)) + 1)) & set(elig_real)) == set(observed):
+            return True
+    return False
+
+
 def rangey(cpus):
     """shape of a mask as Cpus_allowed_list prints it"""
     txt = sim_c18.rangelist(cpus)
@@ -617,11 +630,13 @@ def run_behaviour(target, meta, events):
 
     def fail(i, e, symptom, text):
         ac = argclass(e, boot["elig"][e["p"] - 1])
+        if ac == "empty-list" and e.get("_as700"):
+            ac += "/first-range-of-a-current-mask"
         return {"step": i, "event": _strip(e),
                 "sig": "%s:%s:%s" % (e["op"], ac, symptom),
-                "mismatch": "[%s target] %s  (request %s, class '%s', eligible CPUs %s, real arguments %s)"
+                "mismatch": "[%s target] %s  (request %s, class '%s', eligible CPUs %s, mask before %s, real arguments %s)"
                             % (target.name, text, json.dumps({k: e[k] for k in ("op", "p", "r", "arg") if k in e}),
-                               ac, boot["elig"][e["p"] - 1], e.get("_real"))}
+                               ac, boot["elig"][e["p"] - 1], e.get("_masktxt"), e.get("_real"))}
 
     for i, e in enumerate(events[1:], 1):
         if len(bad) >= 6:
@@ -651,6 +666,8 @@ def _step(target, mp, boot, base_rl, flavor, rnd, tags, fail, exp, i, e, n):
     tags[tag] = tags.get(tag, 0) + 1
     if fam == "affinity" and kind == "set":
         t2 = "affinity-mask-shape:" + rangey(exp["aff"][slot]) + (":empty-list" if ac == "empty-list" else "")
+        e["_masktxt"] = sim_c18.rangelist(exp["aff"][slot])
+        mp.__dict__.setdefault("maskhist", {}).setdefault(slot, []).append(e["_masktxt"])
         tags[t2] = tags.get(t2, 0) + 1
         if sorted(boot["elig"][slot]) != list(range(NCPU)):
             tags["cpuset-with-holes-or-partial"] = tags.get("cpuset-with-holes-or-partial", 0) + 1
@@ -702,6 +719,10 @@ def _step(target, mp, boot, base_rl, flavor, rnd, tags, fail, exp, i, e, n):
             return (m, nexp)
         d = kdiff(k, nexp, target.stored)
         if d:
+            if ac == "empty-list":
+                # (inside one oneshot() block the status record is the one first read there: any mask
+                # the process had during this behaviour may be the one 7.0.0 looked at)
+                e["_as700"] = as_700(mp.__dict__.get("maskhist", {}).get(slot, []), mp.cpu_set(boot["elig"][slot]), k["aff"][slot])
             others = [x for x in d if x[1] != slot or x[0] != fam]
             m = fail(i, e, "others-changed" if others else "kernel-state",
                      "after the call (class %s): %s" % (cls, "; ".join(x[2] for x in d[:3])))
@@ -1438,6 +1459,11 @@ def judge(ctx, stats, name, traces, np_, capped):
             if why == "result-class":
                 symptom = ("raised-" + s["raised"].split("(")[0]) if s["raised"] != "ok" else "did-not-raise"
             prev = tr["steps"][l - 2]["k"] if l > 1 else tr["k0"]
+            if ac == "empty-list" and why == "kernel-state":
+                befores = [tr["k0"]] + [x["k"] for x in tr["steps"][:l - 1]]
+                texts = [sim_c18.rangelist(b["aff"][s["p"] - 1]) for b in befores if "aff" in b]
+                if as_700(texts, tr["elig"][s["p"] - 1], s["k"]["aff"][s["p"] - 1]):
+                    ac += "/first-range-of-a-current-mask"
             stats.deferred.append(("conf:%s:%s:%s" % (s["op"], ac, symptom),
                          "TLC rejects step %d of a history recorded on the %s target (%s): request %s ended with "
                          "class %s (%s), value %r; kernel before: %s; kernel after: %s; eligible CPUs %s, denied %s, "
